@@ -70,9 +70,14 @@ fn run_one(base: u64, adds: &[Add]) -> Result<u64, String> {
 
 fn main() {
     let verif_seed: u64 = std::env::args().nth(1).and_then(|s| s.parse().ok()).unwrap_or(1);
+    // Miri's own seed (-Zmiri-many-seeds) is not visible to the program, but it decides where
+    // allocations land: taking a heap address into the scenario seed gives every Miri seed its own
+    // pair of scenarios, and the same Miri seed the same pair again (replay).
+    let probe = Box::new(0u8);
+    let layout_salt = (&*probe as *const u8 as u64) >> 4;
     let mut failures = 0;
     for scenario in 0..2u64 {
-        let mut s = verif_seed ^ 0xC18_C18 ^ (scenario << 32);
+        let mut s = verif_seed ^ 0xC18_C18 ^ (scenario << 32) ^ layout_salt.wrapping_mul(0x9E37_79B9_7F4A_7C15);
         let n = 2 + (splitmix(&mut s) % 2) as usize;
         // one or two hot words, each either one u64 or two u32 halves
         let hot = 1 + (splitmix(&mut s) % 2) as usize;
@@ -157,5 +162,5 @@ fn main() {
     if failures > 0 {
         std::process::exit(1);
     }
-    println!("MIRI-OK verif_seed={}", verif_seed);
+    println!("MIRI-OK verif_seed={} layout_salt={:#x}", verif_seed, layout_salt);
 }
